@@ -457,7 +457,13 @@ pub fn drive(mut rep: crate::common::evidence::Report, jobs: Vec<Box<dyn AnyJob>
         eprintln!("replay names unknown space {:?}", space);
         return 2;
     }
+    let only = std::env::var("VERIF_ONLY").ok();
     for j in jobs {
+        if let Some(o) = &only {
+            if !j.name().contains(o.as_str()) {
+                continue;
+            }
+        }
         j.explore(&mut rep);
         if rep.has_violation() {
             break;
